@@ -549,6 +549,9 @@ func (m *machine) soloTask(name string, fn func()) *simrt.Task {
 func (m *machine) userChangesMode(viaCommands bool) {
 	t := m.t
 	modePath := filepath.Join(m.tele, "mode")
+	if fi, err := os.Lstat(modePath); err == nil && fi.IsDir() {
+		os.Remove(modePath) // (left by an earlier round: the user puts that right first)
+	}
 	if viaCommands && t.Bool(1, 5) {
 		// the command finds a mode file that holds no valid mode (emptied by an
 		// interrupted write, edited by hand): that is not "already the requested mode"
@@ -579,7 +582,16 @@ func (m *machine) userChangesMode(viaCommands bool) {
 			m.s.Probe("mode-file-random-bytes")
 			return
 		}
-		os.WriteFile(modePath, garbage[t.Draw(len(garbage))], 0666)
+		g := t.Draw(len(garbage) + 1)
+		if g == len(garbage) {
+			// a mode file that is there and cannot be read (a directory has its name:
+			// the sandbox runs as root, permissions would not stop a read)
+			os.Remove(modePath)
+			os.Mkdir(modePath, 0777)
+			m.s.Probe("mode-file-unreadable")
+			return
+		}
+		os.WriteFile(modePath, garbage[g], 0666)
 		return
 	}
 	want := []string{"on", "local", "off"}[t.Draw(3)]
